@@ -10,7 +10,7 @@ import Dashu.Proofs.Trans.Cert
    §2  soundness of the rational enclosures `expEncl`, `lnEncl` (every argument, every effort);
    §3  the certificate theorems: if the executable test (`Model/Trans/Cert.lean`, the very
        definitions the driver runs on the implementation's printed result) answers `certified` then
-       `|r − f(x)| < ulp ∧ (Exact → r = f(x))`; if it answers `violation` then that is false.
+       `(|r − f(x)| < ulp ∨ r = f(x)) ∧ (Exact → r = f(x))`; if it answers `violation` then that is false.
 
   NOT PROVED (kept as a comment, explored by `./check C11`):
     theorem c11_full : ∀ input in the domain, the result dashu computes passes the certificate
@@ -102,13 +102,14 @@ theorem lnEncl_sound (x : ℚ) (n : ℕ) (hx : 0 < x) :
 
 /-! ## §3 certificates
 
-  `Within r u exact v :⇔ |r − v| < u ∧ (exact → r = v)` (`Proofs/Trans/Cert.lean`); the claim is
+  `Within r u exact v :⇔ (|r − v| < u ∨ r = v) ∧ (exact → r = v)` (`Proofs/Trans/Cert.lean`); the claim is
   `r = fval B sig e = sig·B^e`, `u = ulp B sig e p = B^(e + digits sig − p)`. -/
 
 /-- what the six certificate theorems conclude: the claimed float is within one ulp (at precision `p`)
     of the real value `v`, and carries the flag `Exact` only if it equals `v` -/
 def Ok (B : ℕ) (sig e : ℤ) (p : ℕ) (exact : Bool) (v : ℝ) : Prop :=
-  |((fval B sig e : ℚ) : ℝ) - v| < ((ulp B sig e p : ℚ) : ℝ) ∧ (exact = true → ((fval B sig e : ℚ) : ℝ) = v)
+  (|((fval B sig e : ℚ) : ℝ) - v| < ((ulp B sig e p : ℚ) : ℝ) ∨ ((fval B sig e : ℚ) : ℝ) = v) ∧
+    (exact = true → ((fval B sig e : ℚ) : ℝ) = v)
 
 theorem ok_iff_within (B : ℕ) (sig e : ℤ) (p : ℕ) (exact : Bool) (v : ℝ) :
     Ok B sig e p exact v ↔ Within (fval B sig e) (ulp B sig e p) exact v := Iff.rfl
@@ -121,10 +122,17 @@ theorem checkedExp_sound (B : ℕ) (x : ℚ) (sig e : ℤ) (p : ℕ) (exact : Bo
 theorem checkedExpScaled_sound (B : ℕ) (hB : 0 < B) (x : ℚ) (sig e : ℤ) (p : ℕ) (exact : Bool) (fuel n0 : ℕ) :
     ((certExpScaled B x sig e p exact fuel n0).1 = .certified → Ok B sig e p exact (Real.exp (x : ℝ))) ∧
     ((certExpScaled B x sig e p exact fuel n0).1 = .violation → ¬ Ok B sig e p exact (Real.exp (x : ℝ))) := by
-  obtain ⟨h1, h2⟩ := refine_sound (expScaledEncl B x e) (sig : ℚ) (ulpScaled B sig p) exact _
-    (expScaledEncl_encloses B hB x e) fuel n0
-  exact ⟨fun h => within_of_scaled B hB sig e p exact _ (h1 h),
-    fun h hw => h2 h (scaled_of_within B hB sig e p exact _ hw)⟩
+  unfold certExpScaled
+  split_ifs with hbig
+  · refine ⟨(by intro h; cases h), fun _ hw => ?_⟩
+    have hx : Encloses ((x, x) : ℚ × ℚ) (x : ℝ) := ⟨le_refl _, le_refl _⟩
+    have hv := tooBig_violation _ _ (subLogs_sound B hB _ _ hx e 64) _ _ exact hbig
+    rw [exp_sub_int_mul_log B hB] at hv
+    exact hv (scaled_of_within B hB sig e p exact _ hw)
+  · obtain ⟨h1, h2⟩ := refine_sound (expScaledEncl B x e) (sig : ℚ) (ulpScaled B sig p) exact _
+      (expScaledEncl_encloses B hB x e) fuel n0
+    exact ⟨fun h => within_of_scaled B hB sig e p exact _ (h1 h),
+      fun h hw => h2 h (scaled_of_within B hB sig e p exact _ hw)⟩
 
 theorem checkedExpm1_sound (B : ℕ) (x : ℚ) (sig e : ℤ) (p : ℕ) (exact : Bool) (fuel n0 : ℕ) :
     ((certExpm1 B x sig e p exact fuel n0).1 = .certified → Ok B sig e p exact (Real.exp (x : ℝ) - 1)) ∧
@@ -154,10 +162,48 @@ theorem checkedPowfScaled_sound (B : ℕ) (hB : 0 < B) (x y : ℚ) (hx : 0 < x) 
     (exact : Bool) (fuel n0 : ℕ) :
     ((certPowfScaled B x y sig e p exact fuel n0).1 = .certified → Ok B sig e p exact ((x : ℝ) ^ (y : ℝ))) ∧
     ((certPowfScaled B x y sig e p exact fuel n0).1 = .violation → ¬ Ok B sig e p exact ((x : ℝ) ^ (y : ℝ))) := by
-  obtain ⟨h1, h2⟩ := refine_sound (powfScaledEncl B x y e) (sig : ℚ) (ulpScaled B sig p) exact _
-    (powfScaledEncl_encloses B hB x y hx e) fuel n0
-  exact ⟨fun h => within_of_scaled B hB sig e p exact _ (h1 h),
-    fun h hw => h2 h (scaled_of_within B hB sig e p exact _ hw)⟩
+  have hx' : (0 : ℝ) < (x : ℝ) := by exact_mod_cast hx
+  unfold certPowfScaled
+  split_ifs with hbig
+  · refine ⟨(by intro h; cases h), fun _ hw => ?_⟩
+    have hv := tooBig_violation _ _
+      (subLogs_sound B hB _ _ (scaleRat_sound y _ _ (lnEncl_sound x (64 + magBits y + 3) hx)) e 64) _ _ exact hbig
+    rw [exp_sub_int_mul_log B hB, mul_comm, ← Real.rpow_def_of_pos hx'] at hv
+    exact hv (scaled_of_within B hB sig e p exact _ hw)
+  · obtain ⟨h1, h2⟩ := refine_sound (powfScaledEncl B x y e) (sig : ℚ) (ulpScaled B sig p) exact _
+      (powfScaledEncl_encloses B hB x y hx e) fuel n0
+    exact ⟨fun h => within_of_scaled B hB sig e p exact _ (h1 h),
+      fun h hw => h2 h (scaled_of_within B hB sig e p exact _ hw)⟩
+
+/-- exact `powf`: if `s > 0` and `s ^ y.den = x` (found by the driver, checked here as a hypothesis),
+    the value `x^y = s^(y.num)` is rational and the comparison is exact -/
+theorem checkedPowfExact_sound (B : ℕ) (s x y : ℚ) (hs : 0 < s) (hroot : s ^ y.den = x) (sig e : ℤ) (p : ℕ)
+    (exact : Bool) :
+    (certPowfExact B s y sig e p exact = .certified → Ok B sig e p exact ((x : ℝ) ^ (y : ℝ))) ∧
+    (certPowfExact B s y sig e p exact = .violation → ¬ Ok B sig e p exact ((x : ℝ) ^ (y : ℝ))) := by
+  rw [rpow_of_root s x y hs hroot]
+  have hv : Encloses (s ^ y.num, s ^ y.num) ((s : ℝ) ^ y.num) := by
+    unfold Encloses
+    push_cast
+    exact ⟨le_refl _, le_refl _⟩
+  exact ⟨fun h => judge_certified hv h, fun h => judge_violation hv h⟩
+
+/-- the root witness the driver uses satisfies the hypotheses of `checkedPowfExact_sound` -/
+theorem ratRoot_spec (b : ℕ) (x s : ℚ) (h : ratRoot b x = some s) : 0 < s ∧ s ^ b = x := by
+  unfold ratRoot at h
+  by_cases h1 : b = 1
+  · rw [if_pos h1] at h
+    by_cases h2 : 0 < x
+    · rw [if_pos h2] at h
+      cases h; subst h1; exact ⟨h2, by simp⟩
+    · rw [if_neg h2] at h; cases h
+  · rw [if_neg h1] at h
+    simp only [] at h
+    by_cases h3 : 0 < mkRat (↑(iroot b x.num.natAbs)) (iroot b x.den) ∧
+        mkRat (↑(iroot b x.num.natAbs)) (iroot b x.den) ^ b = x
+    · rw [if_pos h3] at h
+      cases h; exact h3
+    · rw [if_neg h3] at h; cases h
 
 /-- `powi` is decided by exact rational arithmetic: `(x : ℝ)^k` with an integer exponent of either sign -/
 theorem checkedPowi_sound (B : ℕ) (x : ℚ) (k : ℤ) (sig e : ℤ) (p : ℕ) (exact : Bool) :
@@ -169,31 +215,77 @@ theorem checkedPowi_sound (B : ℕ) (x : ℚ) (k : ℤ) (sig e : ℤ) (p : ℕ) 
     exact ⟨le_refl _, le_refl _⟩
   exact ⟨fun h => judge_certified hv h, fun h => judge_violation hv h⟩
 
-/-- `powi` never ends undecided -/
+/-- `powi` with an exponent too large for exact arithmetic, positive base: the `powf` certificate with the
+    integer exponent cast to a rational certifies the integer power -/
+theorem checkedPowiBig_sound (B : ℕ) (hB : 0 < B) (x : ℚ) (hx : 0 < x) (k : ℤ) (sig e : ℤ) (p : ℕ)
+    (exact : Bool) (fuel n0 : ℕ) :
+    ((certPowfScaled B x (k : ℚ) sig e p exact fuel n0).1 = .certified → Ok B sig e p exact ((x : ℝ) ^ k)) ∧
+    ((certPowfScaled B x (k : ℚ) sig e p exact fuel n0).1 = .violation → ¬ Ok B sig e p exact ((x : ℝ) ^ k)) := by
+  have h := checkedPowfScaled_sound B hB x (k : ℚ) hx sig e p exact fuel n0
+  have e1 : (x : ℝ) ^ (((k : ℚ)) : ℝ) = (x : ℝ) ^ k := by
+    rw [show (((k : ℚ)) : ℝ) = ((k : ℤ) : ℝ) from by push_cast; rfl, Real.rpow_intCast]
+  rw [e1] at h
+  exact h
+
+/-- `powi` never ends undecided (the enclosure is a point) -/
 theorem certPowi_decided (B : ℕ) (x : ℚ) (k : ℤ) (sig e : ℤ) (p : ℕ) (exact : Bool) :
     certPowi B x k sig e p exact ≠ .undecided := by
   unfold certPowi judge
   simp only []
+  set v := powiExact x k
+  set r := fval B sig e
+  set u := ulp B sig e p
   split_ifs with h1 h2
   · simp
   · simp
   · exfalso
-    set v := powiExact x k
-    set r := fval B sig e
-    set u := ulp B sig e p
-    by_cases hle : v ≤ r - u
-    · exact h2 (Or.inl hle)
-    · by_cases hge : r + u ≤ v
-      · exact h2 (Or.inr (Or.inl hge))
-      · simp only [not_le] at hle hge
-        apply h1
-        refine ⟨hle, hge, fun hex => ?_⟩
-        by_contra hne
-        apply h2
-        right; right
-        refine ⟨hex, ?_⟩
-        by_contra hcon
-        simp only [not_or, not_lt] at hcon
-        exact hne ⟨le_antisymm hcon.2 hcon.1 |>.symm ▸ rfl, le_antisymm hcon.2 hcon.1 |>.symm ▸ rfl⟩
+    by_cases hvr : v = r
+    · exact h1 ⟨Or.inr ⟨hvr, hvr⟩, fun _ => ⟨hvr, hvr⟩⟩
+    · have hd : r < v ∨ v < r := by
+        rcases lt_trichotomy r v with h | h | h
+        · exact Or.inl h
+        · exact absurd h.symm hvr
+        · exact Or.inr h
+      by_cases hex : exact = true
+      · exact h2 (Or.inr ⟨hex, hd⟩)
+      · by_cases hfar : v ≤ r - u ∨ r + u ≤ v
+        · exact h2 (Or.inl ⟨hfar, hd⟩)
+        · simp only [not_or, not_le] at hfar
+          exact h1 ⟨Or.inl ⟨hfar.1, hfar.2⟩, fun he => absurd he hex⟩
+
+/-! ## non-vacuity: the certificate test does answer `certified` / `violation` on concrete claims -/
+
+-- exp(1/2) = 1.6487…; base 2, precision 4: 13·2⁻³ = 1.625 is within one ulp (2⁻³), 15·2⁻³ = 1.875 is not
+example : (certExp 2 (1/2) 13 (-3) 4 false 9 20).1 = .certified := by decide +kernel
+example : (certExp 2 (1/2) 15 (-3) 4 false 9 20).1 = .violation := by decide +kernel
+-- ln 2 = 0.69314…; base 10, precision 4: 6931·10⁻⁴
+example : (certLn 10 2 6931 (-4) 4 false 9 30).1 = .certified := by decide +kernel
+-- the exact case is certified with the flag Exact: exp 0 = 1
+example : (certExp 10 0 1 0 4 true 9 20).1 = .certified := by decide +kernel
+-- 2^10 = 1024 exactly, also as a `powf` with the root witness s = 2 (x = 4 = 2², y = 5 = 10/2 … here y = 5, den 1)
+example : certPowi 10 2 10 1024 0 4 true = .certified := by decide +kernel
+example : ratRoot 2 (9/4) = some (3/2) := by decide +kernel
+example : certPowfExact 10 (3/2) (1/2) 15 (-1) 3 true = .certified := by decide +kernel
+
+/-! ## counterexamples: results printed by the pinned commit that the certificate refutes
+    (each is a theorem about the real exponential; see `known_findings.jsonl`, property C11) -/
+
+/-- `FBig::<HalfEven, 3>` 7·3⁻⁵² at precision 2: `exp` returned `Exact(1)`; the value is within an ulp
+    but it is not exact -/
+theorem exact_flag_counterexample :
+    ¬ Ok 3 1 0 2 true (Real.exp (((7 : ℚ) * (3 : ℚ) ^ (-52 : ℤ) : ℚ) : ℝ)) ∧
+      Ok 3 1 0 2 false (Real.exp (((7 : ℚ) * (3 : ℚ) ^ (-52 : ℤ) : ℚ) : ℝ)) :=
+  ⟨(checkedExp_sound 3 _ 1 0 2 true 9 64).2 (by decide +kernel),
+   (checkedExp_sound 3 _ 1 0 2 false 9 64).1 (by decide +kernel)⟩
+
+/-- `FBig::<Up, 3>` 3³¹ at precision 1: `exp` returned 2·3^562152192123592; the true exponent is 562230… -/
+theorem large_argument_counterexample :
+    ¬ Ok 3 2 562152192123592 1 false (Real.exp (((3 : ℚ) ^ (31 : ℕ) : ℚ) : ℝ)) :=
+  (checkedExpScaled_sound 3 (by norm_num) _ 2 562152192123592 1 false 9 20).2 (by decide +kernel)
+
+/-- `FBig::<Away, 2>` −2⁻⁵¹ at precision 10: `exp` returned 513·2⁻⁹ = 1 + 2⁻⁹, the true value is below 1 -/
+theorem directed_one_ulp_counterexample :
+    ¬ Ok 2 513 (-9) 10 false (Real.exp (((-1 : ℚ) / (2 : ℚ) ^ (51 : ℕ) : ℚ) : ℝ)) :=
+  (checkedExp_sound 2 _ 513 (-9) 10 false 9 40).2 (by decide +kernel)
 
 end Dashu.Props.C11
